@@ -293,7 +293,7 @@ class Check:
         self.extra['traces_validated_against_impl'] = self.extra.get('traces_validated_against_impl', 0) + len(cases)
         shown = {}
         if bad and show:
-            sel = bad[:40]
+            sel = bad[:400]
             path = os.path.join(self.workdir, 'show_%s_%s.v' % (self.pid, name))
             with open(path, 'w') as f:
                 f.write('From Coq Require Import QArith ZArith List Bool.\nImport ListNotations.\n')
